@@ -95,7 +95,10 @@ func c03Run(w *W, idx int) {
 	if w.Thorough() {
 		nb = 10
 	}
-	c03Program(w, r, s.Name, tree, genBindings(r, tree, nb, 0), true)
+	bs := genBindings(r, tree, nb, 0)
+	// plus bindings in which some fetches fail (the failing call is an observable effect too)
+	bs = append(bs, genBindings(r, tree, 3, 0.15)[1:]...)
+	c03Program(w, r, s.Name, tree, bs, true)
 }
 
 func mapLeaves(n *Node, f func(*Node) *Node) *Node {
@@ -133,6 +136,23 @@ func c03Program(w *W, r *rand.Rand, stratum string, tree *Node, bs []Binding, co
 			env.FastOpt = fe
 			env.WantCov = true
 			_, refErr := env.Eval(v.DumpTree)
+			// the permitted extra fetch of a two-leaf and/or may itself fail when its variable is unbound:
+			// such an evaluation is outside what the property fixes, skip it
+			skip := false
+			for _, e := range env.Trace {
+				if e.Optional && e.Get {
+					if _, bound := b.Vals[e.Name]; !bound {
+						skip = true
+					}
+				}
+			}
+			if skip {
+				w.Inc("skipped_optional_fetch_of_unbound_variable")
+				continue
+			}
+			if refErr == ErrUnbound {
+				w.Inc("cases_with_failing_fetch")
+			}
 			rec := &Recorder{}
 			tr := NewTracer()
 			tr.MaxStack = v.MaxStack
@@ -153,15 +173,18 @@ func c03Program(w *W, r *rand.Rand, stratum string, tree *Node, bs []Binding, co
 					effsText(env.Trace), effsText(rec.Effects), describeCase(v.Src, v.Cfg, b), oneLine(v.Dump), o, refErr)
 			}
 			// TryEval with every variable available evaluates the same program: the same effects are expected
-			rec2 := &Recorder{}
-			o2, _ := callExpr(v.E, CallTryEval, fetcherFor(b, rec2), nil, false)
-			w.Evals++
-			w.Inc("tryeval_traces_compared")
-			if o2.Panic != nil {
-				w.Fail("tryeval-panic/"+normPanic(o2.Panic)+"@"+panicSite(o2.Stack), "TryEval panicked: %v\n%s\n%s", o2.Panic, describeCase(v.Src, v.Cfg, b), o2.Stack)
-			} else if !matchEffects(env.Trace, rec2.Effects) {
-				w.Fail("effects/tryeval-all-available/"+stratum, "TryEval with every variable available performs other fetches/operator calls than left-to-right short-circuit evaluation of the dumped tree\nexpected (?=optional): %s\nobserved:              %s\n%s\ndump: %s\nTryEval result: %s",
-					effsText(env.Trace), effsText(rec2.Effects), describeCase(v.Src, v.Cfg, b), oneLine(v.Dump), o2)
+			// (only on fully bound bindings: TryEval treats an unbound variable as unavailable)
+			if allBoundNames(v.DumpTree, b) {
+				rec2 := &Recorder{}
+				o2, _ := callExpr(v.E, CallTryEval, fetcherFor(b, rec2), nil, false)
+				w.Evals++
+				w.Inc("tryeval_traces_compared")
+				if o2.Panic != nil {
+					w.Fail("tryeval-panic/"+normPanic(o2.Panic)+"@"+panicSite(o2.Stack), "TryEval panicked: %v\n%s\n%s", o2.Panic, describeCase(v.Src, v.Cfg, b), o2.Stack)
+				} else if !matchEffects(env.Trace, rec2.Effects) {
+					w.Fail("effects/tryeval-all-available/"+stratum, "TryEval with every variable available performs other fetches/operator calls than left-to-right short-circuit evaluation of the dumped tree\nexpected (?=optional): %s\nobserved:              %s\n%s\ndump: %s\nTryEval result: %s",
+						effsText(env.Trace), effsText(rec2.Effects), describeCase(v.Src, v.Cfg, b), oneLine(v.Dump), o2)
+				}
 			}
 			cv := env.Cov
 			if cv.SkippedGets > 0 {
@@ -217,7 +240,7 @@ func appendCapped(s []string, x string) []string {
 
 func c03Floors(m *Merged, tier string) []string {
 	var unmet []string
-	for _, c := range []string{"cases_with_skipped_fetch", "cases_with_skipped_custom_call", "cases_with_untaken_branch_effects", "skips_by_and_false", "skips_by_or_true", "skips_multilevel", "skips_from_if_branch"} {
+	for _, c := range []string{"cases_with_skipped_fetch", "cases_with_skipped_custom_call", "cases_with_untaken_branch_effects", "skips_by_and_false", "skips_by_or_true", "skips_multilevel", "skips_from_if_branch", "cases_with_failing_fetch"} {
 		if m.C(c) == 0 {
 			unmet = append(unmet, c+" = 0")
 		}
@@ -226,4 +249,16 @@ func c03Floors(m *Merged, tier string) []string {
 		unmet = append(unmet, "fewer than 100 two-leaf and/or cases under FastEvaluation")
 	}
 	return unmet
+}
+
+func allBoundNames(tree *Node, b Binding) bool {
+	ok := true
+	tree.Walk(func(n *Node) {
+		if n.Kind == KVar {
+			if _, bound := b.Vals[n.Name]; !bound {
+				ok = false
+			}
+		}
+	})
+	return ok
 }
